@@ -3,12 +3,14 @@ import Driver.Bulk
 import Driver.Numscript
 import Driver.Router
 import Driver.Lock
+import Driver.Paginate
 /-! registry of the areas the driver serves -/
 namespace Driver
 def areas : List (String × Handler) := [
   ("bulk", BulkD.handle),
   ("numscript", NumscriptD.handle),
   ("router", RouterD.handle),
-  ("lock", LockD.handle)
+  ("lock", LockD.handle),
+  ("paginate", PaginateD.handle)
 ]
 end Driver
